@@ -53,6 +53,8 @@ pub struct Stepper {
     pub now: u64,
     prev_elapsed: u16,
     blocked: bool,
+    /// ms that passed without ticks since the loop blocked (reported to Kanata on wake-up)
+    blocked_ms: u64,
     owed_tick: bool,
     /// last can_block result was true and no input since
     blockable: bool,
@@ -101,6 +103,7 @@ impl Stepper {
             now: 0,
             prev_elapsed: 0,
             blocked: false,
+            blocked_ms: 0,
             owed_tick: false,
             blockable: false,
             trace: Trace::default(),
@@ -269,6 +272,7 @@ impl Stepper {
                 let skipped = n - i;
                 self.trace.skipped_ms += skipped;
                 self.trace.sim_ms += skipped;
+                self.blocked_ms += skipped;
                 self.blocked = true;
                 return;
             }
@@ -283,7 +287,12 @@ impl Stepper {
         self.last_in = op_idx;
         self.ticks_since_in = 0;
         if self.blocked {
-            // woken from recv(): handle the event then tick once (owed to the following gap)
+            // woken from recv(): the loop reports the time spent blocked, handles the event, then
+            // ticks once (owed to the following gap)
+            if self.blocked_ms > 0 {
+                self.k.account_time_blocked(self.blocked_ms as u128);
+                self.blocked_ms = 0;
+            }
             self.owed_tick = true;
         } else if !self.owed_tick {
             // loop top of the iteration that finds the event with try_recv
@@ -350,6 +359,7 @@ impl Stepper {
                     if self.mode == Mode::Blocking && cb {
                         self.trace.skipped_ms += *n as u64;
                         self.trace.sim_ms += *n as u64;
+                        self.blocked_ms += *n as u64;
                         self.blocked = true;
                         return;
                     }
